@@ -1,2 +1,5 @@
 -- Root of the CprocVerif library: imports every property file (and through them the models).
 import CprocVerif.Props.C15
+import CprocVerif.Props.C16
+import CprocVerif.Props.C03
+import CprocVerif.Props.C20
